@@ -172,13 +172,20 @@ def isBeneathDelegation (z : Zone) (name : Name) : Bool :=
 def cmdResolve (family mode zones cache script question expect impl : String) : Result :=
   let zss? : Option (List ZoneSpec) := if zones = "-" then some [] else (zones.splitOn "^").mapM parseZoneSpec
   let script? : Option (List ScriptEntry) := if script = "-" then some [] else (script.splitOn "^").mapM parseScriptEntry
+  -- optional prefix `S<k>:` = the desired size of the shared cache (default 512)
+  let (cacheSize, cache) : Nat × String :=
+    if cache.startsWith "S" then
+      match (cache.drop 1).toString.splitOn ":" with
+      | k :: rest => (k.toNat?.getD 512, ":".intercalate rest)
+      | _ => (512, cache)
+    else (512, cache)
   match parseMode mode, zss?, parseRRs cache, script?, parseQuestion question with
   | some rmode, some zss, some cacheRRs, some script, some q =>
     match (zss.mapM buildZone).bind (fun zs => zs.foldl (fun acc z => acc.bind (·.insertMerge z)) (some Zones.empty)) with
     | none => { model := "panic", oracle := "fail:C17:zone-build-panic" }
     | some allZones =>
       let t0 := 1000000000
-      let cache0 := sharedInsertAll (PCache.new 512) cacheRRs t0
+      let cache0 := sharedInsertAll (PCache.new cacheSize) cacheRRs t0
       let ctx : Ctx := { zones := allZones, cache := cache0, now := t0, stack := [] }
       let oracle := oracleOf script
       -- model run
